@@ -259,6 +259,7 @@ func c06Scenario(c *choice.Ctx, rep *report.R, prop string, nCalls, depth int) {
 			}
 		}
 	}
+	selOff()
 	for _, cl := range calls {
 		if cl.started {
 			cl.cancel()
